@@ -167,7 +167,7 @@ static void touch_location(struct hwloc_location *l) {
 /* The shared well-formedness oracle (hwmodel topo) needs time and memory LINEAR in the largest gp_index of a dump (8 s / 16 GB at
  * 2^31, unbounded above): loaded topologies with a gp_index >= 2^22 (only reachable by mutating a gp_index attribute) are not
  * dumped for it (counted: `# hugegp-skipped`); everything else (battery, re-import, dup, distances probe, sanitizers) still runs. */
-static int g_nodump; static unsigned long n_hugegp, n_macat;
+static int g_nodump; static unsigned long n_hugegp, n_macat, n_reconf_try, n_reconf_ok;
 static int has_huge_gp(hwloc_topology_t t) {
   int depth = hwloc_topology_get_depth(t);
   static const int sd[] = {HWLOC_TYPE_DEPTH_NUMANODE, HWLOC_TYPE_DEPTH_BRIDGE, HWLOC_TYPE_DEPTH_PCI_DEVICE, HWLOC_TYPE_DEPTH_OS_DEVICE, HWLOC_TYPE_DEPTH_MISC, HWLOC_TYPE_DEPTH_MEMCACHE};
@@ -697,6 +697,13 @@ static int run_case(const char *caseid, const unsigned char *bytes, size_t len, 
       battery(t, caseid, xflags);
       dist_list_probe(t); n_probe++;      /* modifies the distances of t: last */
       ok = 1;
+    } else if (valid_doc.n && (n_reconf_try++ & 3) == 0) {
+      /* "On failure, the topology is reinitialized. It should be either destroyed or configured and loaded again" (hwloc.h): every
+       * fourth failed set / load is followed by a valid document given to THE SAME topology, which must load (fix F81) */
+      if (hwloc_topology_set_xmlbuffer(t, (char *) valid_doc.p, (int) valid_doc.n + 1) < 0) die("case %s: set_xmlbuffer(valid doc) on the topology whose set/load just failed: refused", caseid);
+      if (hwloc_topology_load(t) < 0) die("case %s: load(valid doc) on the topology whose set/load just failed: failed", caseid);
+      if (hwloc_get_nbobjs_by_type(t, HWLOC_OBJ_PU) < 1) die("case %s: reloaded topology has no PU", caseid);
+      n_reconf_ok++;
     }
     hwloc_topology_destroy(t);
   }
@@ -1373,6 +1380,7 @@ int main(int argc, char **argv) {
   fprintf(fplan, "# memcache-leaf-skipped %lu\n", n_mcleaf);
   fprintf(fplan, "# hugegp-skipped %lu\n", n_hugegp);
   fprintf(fplan, "# memattr-catalogue %lu\n", n_macat);
+  fprintf(fplan, "# reconfigured-after-failure %lu\n", n_reconf_ok);
   fprintf(fplan, "# distoracle applied %lu noopinion %lu probes %lu\n", n_oracle, n_oracle_noopinion, n_probe);
   fprintf(fplan, "# done\n");
   fclose(fplan); fclose(fdump);
